@@ -10,8 +10,8 @@ theorem isAssign_eq (s : String) : isAssign s = startsWithAssign s := rfl
 
 /-! ## ports -/
 
-theorem cmpPort_sound {dA lA dB lB : Option String} {p q : CPort}
-    (h : cmpPort dA lA dB lB p q = .ok ()) : portView p = portView q := by
+theorem cmpPort_sound {cfg : Cfg} {dA lA dB lB : Option String} {p q : CPort}
+    (h : cmpPort cfg dA lA dB lB p q = .ok ()) : portView p = portView q := by
   simp only [cmpPort, andThen_ok, check_ok, beq_iff_eq] at h
   obtain ⟨_, _, hd, hs, _, hw, _⟩ := h
   simp [portView, hd, hs, hw]
@@ -219,8 +219,8 @@ theorem resolvePin_outer_name {n : CNetlist} {d : CDef} {p : CPin} {ia rd rl pn 
 
 /-- the repaired pin comparison identifies instance, port and bit -/
 theorem cmpPin_sound {dA lA dB lB : Option String} {ra rb : Option PinR}
-    (hna : ∀ ia rd rl pn b, ra = some (.outer ia rd rl pn b) → ∃ nm, ia = some nm ∧ isAssign nm = false)
-    (h : cmpPin ⟨true⟩ dA lA dB lB ra rb = .ok ()) :
+    (hna : ∀ ia rd rl pn b, ra = some (.outer ia rd rl pn b) → ∀ nm, ia = some nm → isAssign nm = false)
+    (h : cmpPin cfgFixed dA lA dB lB ra rb = .ok ()) :
     ∃ x y, ra = some x ∧ rb = some y ∧ viewOfR x = viewOfR y := by
   cases ra with
   | none => simp [cmpPin] at h
@@ -240,21 +240,27 @@ theorem cmpPin_sound {dA lA dB lB : Option String} {ra rb : Option PinR}
         cases y with
         | inner => simp [cmpPin] at h
         | outer ib rdb rlb pb bb =>
-          obtain ⟨nm, hia, hnas⟩ := hna ia rda rla pa ba rfl
-          subst hia
-          simp only [cmpPin, instEquiv, hnas, innerEquiv, andThen_ok, check_ok, Bool.and_eq_true, beq_iff_eq,
-            if_true, Bool.false_eq_true, if_false] at h
+          have hna' := hna ia rda rla pa ba rfl
+          simp only [cmpPin, instEquiv, cfgFixed, innerEquiv, andThen_ok, check_ok, Bool.and_eq_true, beq_iff_eq,
+            if_true] at h
           obtain ⟨⟨hi, _⟩, hb, hp⟩ := h
-          cases ib with
-          | none => simp at hi
-          | some nb =>
-            simp only [check_ok, beq_iff_eq] at hi
-            simp [viewOfR, hi, hb, hp.1.1]
+          have hiab : ia = ib := by
+            cases ia with
+            | none =>
+              cases ib with
+              | none => rfl
+              | some nb => simp at hi
+            | some na =>
+              cases ib with
+              | none => simp at hi
+              | some nb =>
+                simp only [hna' na rfl, Bool.false_eq_true, false_and, if_false, check_ok, beq_iff_eq] at hi
+                exact hi
+          simp [viewOfR, hiab, hb, hp.1.1]
 
 theorem cmpCable_sound {a b : CNetlist} {lA lB : Option String} {dA dB : CDef} {ca cb : CCable}
     (hna : ∀ i ∈ dA.insts, ∀ nm, i.name = some nm → isAssign nm = false)
-    (hnamed : allNamed (·.name) dA.insts = true)
-    (h : cmpCable ⟨true⟩ a b lA lB dA dB ca cb = .ok ()) : cableView a dA ca = cableView b dB cb := by
+    (h : cmpCable cfgFixed a b lA lB dA dB ca cb = .ok ()) : cableView a dA ca = cableView b dB cb := by
   simp only [cmpCable, andThen_ok, check_ok, beq_iff_eq] at h
   obtain ⟨_, _, hlen, hw⟩ := h
   unfold cableView
@@ -264,13 +270,10 @@ theorem cmpCable_sound {a b : CNetlist} {lA lB : Option String} {dA dB : CDef} {
   refine allM2_map ?_ wa wb hwab.1 hwab.2
   intro pa pb hp
   have hna' : ∀ ia rd rl pn bt, resolvePin a dA pa = some (.outer ia rd rl pn bt) →
-      ∃ nm, ia = some nm ∧ isAssign nm = false := by
-    intro ia rd rl pn bt hr
+      ∀ nm, ia = some nm → isAssign nm = false := by
+    intro ia rd rl pn bt hr nm hnm
     obtain ⟨i, hi, hin⟩ := resolvePin_outer_name hr
-    have hsome : (i.name).isSome := by
-      simp only [allNamed, List.all_eq_true] at hnamed; exact hnamed i hi
-    obtain ⟨nm, hnm⟩ := Option.isSome_iff_exists.1 hsome
-    exact ⟨nm, by rw [← hin, hnm], hna i hi nm hnm⟩
+    exact hna i hi nm (by rw [hin, hnm])
   obtain ⟨x, y, hx, hy, hv⟩ := cmpPin_sound hna' hp
   rw [pinView_of_resolvePin hx, pinView_of_resolvePin hy, hv]
 
